@@ -59,3 +59,15 @@ func (c *Compiled) VerifTryLock(write bool) bool {
 	}
 	return false
 }
+
+// VerifOrder, when non-nil, decides the order in which Script variables are
+// assigned to global slots (otherwise Go's randomised map iteration order
+// decides, which makes executions unrepeatable).
+var VerifOrder func(names []string) []string
+
+func verifOrder(names []string) []string {
+	if f := VerifOrder; f != nil {
+		return f(names)
+	}
+	return names
+}
